@@ -763,6 +763,134 @@ def check_usage_not_remaining(ck, prog):
         raise AnalysisBroken("C09-USAGE: fewer than 4 members feeding memory usage reports found")
 
 
+def _dead_store(prog, cg, g, elem, within):
+    """The store `elem` of function g is guarded by `X < P` (P a parameter of g) and every call of g from the functions
+    `within` passes the constant 0 for P: the unsigned comparison is never true, the store never happens."""
+    from sa import cfg
+    blk = None
+    for b, i, e in g.iter_elems():
+        if e is elem:
+            blk = b.id
+    if blk is None:
+        return False
+    params = [p["n"] for p in g.params]
+    dom = cfg.dominators(g)
+    for d in dom.get(blk, ()):
+        bd = g.blocks[d]
+        t = bd.term
+        if d == blk or not t or "cond" not in t or len(bd.succs) != 2:
+            continue
+        c = ex.strip(t["cond"])
+        if c is None or c.get("k") != "bin" or c["op"] != "<":
+            continue
+        r = ex.strip(c["r"])
+        if r is None or r.get("k") != "var" or r["n"] not in params:
+            continue
+        # the store must be on the true side only
+        fs = bd.succs[1]
+        if fs is not None and (fs == blk or blk in cfg.reachable(g, [fs])):
+            continue
+        idx = params.index(r["n"])
+        args = []
+        for nm in within:
+            for f in prog.functions.get(nm, []):
+                if not f.blocks:
+                    continue
+                for b, i, e in f.iter_elems():
+                    for cc in ex.calls(e, into_refs=False):
+                        if cc.get("fn") == g.name and len(cc["args"]) > idx:
+                            args.append(cc["args"][idx])
+        if args and all(ex.is_const(a, 0) for a in args):
+            return True
+    return False
+
+
+def check_optpath(ck, prog):
+    """An encoder's memory usage function recomputes the lzma_lz_options that the init path hands to
+    lz_encoder_prepare(): every adjustment of that record on the init path must also be made on the memusage path,
+    otherwise the figure reported (and compared with limits by applications, by xz and by the threaded encoder)
+    describes a smaller buffer than the one that is allocated."""
+    ck.rule("C09-OPTPATH", "every store to lzma_lz_options on the init path of a filter encoder has a counterpart "
+            "on the path of its memusage function")
+    cg = common.callgraph(prog)
+
+    def closure(root):
+        seen, st = set(), [root]
+        while st:
+            nm = st.pop()
+            if nm in seen:
+                continue
+            fs = [f for f in prog.functions.get(nm, []) if f.blocks]
+            if not fs:
+                continue
+            seen.add(nm)
+            for f in fs:
+                st.extend(cg.direct.get(f.key, ()))
+                for b, i, e in f.iter_elems():
+                    for c in ex.calls(e, into_refs=False):
+                        for a in c.get("args", ()):
+                            fr = cg._fnref(a)
+                            if fr:
+                                st.append(fr)
+        return seen
+
+    def stores(nm):
+        out = {}
+        for f in prog.functions.get(nm, []):
+            if not f.blocks:
+                continue
+            for b, i, e in f.iter_elems():
+                for (l, r, op, node) in ex.writes(e):
+                    ls = ex.strip(l)
+                    if ls is not None and ls.get("k") == "mem" and ls.get("rec") == "lzma_lz_options":
+                        out.setdefault(ls["f"], (f, e))
+        return out
+    g = prog.globals.get("encoders")
+    if not g:
+        raise AnalysisBroken("filter encoder table not found")
+    pairs = set()
+    for d in g:
+        n = ex.strip(d.get("init"))
+        if n is None or n.get("k") != "init":
+            continue
+        for e in n["e"]:
+            e = ex.strip(e)
+            if e is None or e.get("k") != "init" or not e.get("fields"):
+                continue
+            ent = dict(zip(e["fields"], e["e"]))
+            i_, m_ = cg._fnref(ent.get("init")), cg._fnref(ent.get("memusage"))
+            if i_ and m_:
+                pairs.add((i_, m_))
+    if len(pairs) < 2:
+        raise AnalysisBroken("fewer than two (init, memusage) pairs in the filter encoder table")
+    n = 0
+    for (i_, m_) in sorted(pairs):
+        ci, cm = closure(i_), closure(m_)
+        mem_only = {}
+        for nm in cm - ci:
+            for fld, site in stores(nm).items():
+                if not _dead_store(prog, cg, site[0], site[1], cm):
+                    mem_only.setdefault(fld, nm)
+        if not any(stores(nm) for nm in cm):
+            continue
+        for nm in sorted(ci):
+            for fld, (f, e) in sorted(stores(nm).items()):
+                n += 1
+                ok = nm in cm or fld in mem_only
+                ck.ob("C09-OPTPATH", "%s:%s.%s" % (i_, nm, fld), ok, common.where(f, e),
+                      "%s() stores lz_options->%s on the init path of %s; %s" % (
+                          nm, fld, i_,
+                          ("the memusage path of %s runs the same function" % m_) if nm in cm else
+                          ("%s() makes the corresponding store on the memusage path" % mem_only.get(fld)))
+                      if ok else
+                      "%s() stores lz_options->%s on the init path (%s) but neither it nor any other store to that member is "
+                      "on the path of %s(): the memory usage is computed from options that differ from the ones the buffers "
+                      "are allocated with, so the reported figure can be smaller than the allocation" % (nm, fld, i_, m_),
+                      key="OPTPATH:%s:%s:%s" % (m_, nm, fld))
+    ck.floor("C09-OPTPATH", 10)
+    return n
+
+
 def check_reserve_and_default(ck, prog, prog_xz):
     """(1) lzma2_encoder_init() reserves history for the uncompressed-chunk fallback: before_size + dict_size must reach
     LZMA2_CHUNK_MAX (64 KiB, the largest uncompressed chunk).  The encoder memory-usage functions compute the window from
@@ -840,6 +968,7 @@ def run(ck):
     check_xz(ck, prog_xz)
     check_terms(ck, prog, prog_xz)
     check_reserve_and_default(ck, prog, prog_xz)
+    check_optpath(ck, prog)
     check_clamp(ck, prog)
     check_saturate(ck, prog)
     check_usage_not_remaining(ck, prog)
